@@ -78,10 +78,16 @@ def _instantiate(ctx: Ctx, f: Func, call: ast.Call, want_value: bool) -> Optiona
     binding = bind_call(m, call, bound=bound)
     if binding is None:
         return None
-    if not all(_pure_arg(v) for v in binding.values()):
-        return None
     if set(binding) & _stores(m.node):
         return None
+    # an argument that is not a plain name / constant is evaluated once, before the body, into a temporary (same order)
+    hoisted: List[ast.stmt] = []
+    for k in list(binding):
+        v = binding[k]
+        if not _pure_arg(v):
+            tmp = f"{k}__arg"
+            hoisted.append(ast.Assign(targets=[ast.Name(id=tmp, ctx=ast.Store())], value=v, lineno=getattr(call, "lineno", 1), col_offset=0))
+            binding[k] = ast.Name(id=tmp, ctx=ast.Load())
     # the callee's `self` must be the caller's `self`
     if m.kind in ("method", "getter", "setter") and m.parent is None:
         recv = call.func.value if isinstance(call.func, ast.Attribute) else None
@@ -110,7 +116,7 @@ def _instantiate(ctx: Ctx, f: Func, call: ast.Call, want_value: bool) -> Optiona
             if isinstance(n, ast.Name) and n.id in rename:
                 n.id = rename[n.id]  # type: ignore[assignment]
     mod = _SubstMany(binding).visit(mod)
-    return mod.body
+    return hoisted + mod.body
 
 
 def inline_delegation(ctx: Ctx, f: Func, fn: ast.FunctionDef, whole_only: bool = False) -> bool:
@@ -265,10 +271,45 @@ def expand_quantifiers(fn: ast.FunctionDef) -> bool:
     return t.changed
 
 
-def beta_reduce(fn: ast.FunctionDef) -> bool:
+_OPERATOR_FUNCS = {"operator.gt": ast.Gt, "operator.lt": ast.Lt, "operator.ge": ast.GtE, "operator.le": ast.LtE, "operator.eq": ast.Eq, "operator.ne": ast.NotEq}
+
+
+class _OperatorCalls(ast.NodeTransformer):
+    """operator.gt(a, b) -> a > b (and lt, ge, le, eq, ne; `operator.contains(a, b)` -> b in a), by the name the module
+    imported them under."""
+
+    def __init__(self, resolve):
+        self.resolve = resolve
+        self.changed = False
+
+    def visit_Call(self, node: ast.Call):
+        self.generic_visit(node)
+        if node.keywords or len(node.args) != 2:
+            return node
+        fq = None
+        if isinstance(node.func, ast.Name):
+            fq = self.resolve(node.func.id)
+        elif isinstance(node.func, ast.Attribute) and isinstance(node.func.value, ast.Name):
+            base = self.resolve(node.func.value.id)
+            fq = f"{base}.{node.func.attr}" if base else None
+        if fq in _OPERATOR_FUNCS:
+            self.changed = True
+            return ast.copy_location(ast.Compare(left=node.args[0], ops=[_OPERATOR_FUNCS[fq]()], comparators=[node.args[1]]), node)
+        if fq == "operator.contains":
+            self.changed = True
+            return ast.copy_location(ast.Compare(left=node.args[1], ops=[ast.In()], comparators=[node.args[0]]), node)
+        return node
+
+
+def beta_reduce(fn: ast.FunctionDef, resolve=None) -> bool:
     t = _Beta()
     t.visit(fn)
-    return t.changed
+    changed = t.changed
+    if resolve is not None:
+        o = _OperatorCalls(resolve)
+        o.visit(fn)
+        changed |= o.changed
+    return changed
 
 
 def inline_value_calls(ctx: Ctx, f: Func, fn: ast.FunctionDef) -> bool:
@@ -788,6 +829,17 @@ def split_alias_choice(fn: ast.FunctionDef) -> bool:
                 tg, v = st.targets[0].id, st.value
             elif isinstance(st, ast.AnnAssign) and isinstance(st.target, ast.Name) and st.value is not None:
                 tg, v = st.target.id, st.value
+            # (A if C else B).m(args)  ->  if C: A.m(args) else: B.m(args)
+            if isinstance(st, ast.Expr) and isinstance(st.value, ast.Call) and isinstance(st.value.func, ast.Attribute) and isinstance(st.value.func.value, ast.IfExp):
+                ie = st.value.func.value
+                if isinstance(ie.body, ast.Name) and isinstance(ie.orelse, ast.Name) and pure_test(ie.test):
+                    def arm(recv: ast.Name) -> ast.stmt:
+                        c = clone(st)
+                        c.value.func.value = ast.Name(id=recv.id, ctx=ast.Load())
+                        return c
+
+                    changed = True
+                    return stmts[:i] + [ast.copy_location(ast.If(test=clone(ie.test), body=[arm(ie.body)], orelse=[arm(ie.orelse)]), st)] + block(stmts[i + 1 :])
             if tg and binds.get(tg) == 1 and isinstance(v, ast.IfExp) and isinstance(v.body, ast.Name) and isinstance(v.orelse, ast.Name) and pure_test(v.test):
                 rest = stmts[i + 1 :]
                 frozen = {tg, v.body.id, v.orelse.id} | {n.id for n in ast.walk(v.test) if isinstance(n, ast.Name)}
@@ -833,7 +885,12 @@ def normalised(ctx: Ctx, f: Func, steps: str = "delegation,tailcalls,calls,unrol
         if "quant" in want:
             round_changed |= expand_quantifiers(fn)
         if "beta" in want:
-            round_changed |= beta_reduce(fn)
+
+            def _resolve(name: str, _m=f.module):
+                r = ctx.prog.resolve_name(_m, name)
+                return r[1] if isinstance(r, tuple) and r[0] == "ext" else None
+
+            round_changed |= beta_reduce(fn, _resolve)
         if "getattr" in want:
             round_changed |= fold_getattr(fn)
         changed |= round_changed
